@@ -129,6 +129,7 @@ def shards(tier):
     out.append({'kind': 'ret', 'tier': tier})
     out.append({'kind': 'flat', 'tier': tier})
     out.append({'kind': 'methods', 'tier': tier})
+    out.append({'kind': 'shared', 'tier': tier})
     return out
 
 
@@ -246,6 +247,38 @@ def run_methods(shard, res, only=None):
     res['cov']['programs'] += 1
 
 
+def run_shared(shard, res, only=None):
+    """applications with different HttpRpc configurations (delimiter, strict_arrays, validator) over ONE build of the model
+    classes, called one after the other in every order of two: what one protocol object worked out for a class must not
+    be used by another"""
+    name, program, cases = [x for x in sig_programs() if x[0] == 'objarr'][0]
+    m = program['services'][0]['methods'][0]
+    label, args = cases[0]
+    cfgs = configs(shard['tier'])
+    for c1, c2 in itertools.permutations(range(len(cfgs)), 2):
+        key = [c1, c2]
+        if only is not None and only != key:
+            continue
+        b = spec.build(program)
+        hs = [harness.HttpHarness(program, built=b, **cfgs[c1]), harness.HttpHarness(program, built=b, **cfgs[c2])]
+        res['evaluations'] += 1
+        good = True
+        for step, h in enumerate((hs[0], hs[1], hs[0])):
+            pairs = []
+            for (an, at), v in zip(m['args'], args):
+                pairs += httpcodec.flatten(h.b, an, at, v, delim=h.cfg['hier_delim'])
+            ctx = {'shared': True, 'shard': shard, 'only': key}
+            oc = run_get(h, m, args, httpcodec.query_string(pairs), False, ctx, res,
+                         'shared-classes|%s' % ('first-application' if step == 0 else 'second-application' if step == 1 else 'first-application-again'))
+            if oc != 'ok':
+                good = False
+                break
+        if good:
+            res['nontrivial'] += 1
+        res['outcomes']['shared-classes'] = res['outcomes'].get('shared-classes', 0) + 1
+    res['cov']['programs'] += 1
+
+
 def do_program(program, arg_cases, res, tier, site, sample_key, shard=None):
     m = program['services'][0]['methods'][0]
     hs = []
@@ -344,6 +377,8 @@ def run_shard(shard):
             do_program(program, [('v%d' % i, [v, 7]) for i, v in enumerate(vals)], res, tier, 'B', shape_sig(shape), shard)
     elif shard['kind'] == 'methods':
         run_methods(shard, res)
+    elif shard['kind'] == 'shared':
+        run_shared(shard, res)
     elif shard['kind'] == 'ret':
         for aid, at, vals in ret_cases(tier):
             program = {'tns': TNS, 'classes': [{'n': 'H', 'fields': [['hx', I], ['hs', U], ['hd', ['p', 'DateTime', {}]], ['hb', ['p', 'Boolean', {}]]]}],
@@ -433,6 +468,9 @@ def replay(case):
     res = {'evaluations': 0, 'nontrivial': 0, 'outcomes': {}, 'violations': [], 'samples': [], 'cov': {'programs': 0}, 'notes': {}}
     if case.get('methods'):
         run_methods(case['shard'], res, only=case['only'])
+        return res['violations']
+    if case.get('shared'):
+        run_shared(case['shard'], res, only=case['only'])
         return res['violations']
     if case.get('ret') or case.get('flat'):
         r = run_shard({'kind': 'ret' if case.get('ret') else 'flat', 'tier': 'thorough'})
